@@ -615,6 +615,15 @@ func (h *vHarness) vPushed() string {
 }
 
 func (h *vHarness) vAfter(w *bufio.Writer) {
+	pods := []string{}
+	for _, p := range h.m.cache.GetPods() {
+		pods = append(pods, p.GetID())
+	}
+	sort.Strings(pods)
+	if len(pods) == 0 {
+		pods = []string{"-"}
+	}
+	fmt.Fprintf(w, "VP %s\n", strings.Join(pods, ","))
 	fmt.Fprintf(w, "V %s\n", h.vCacheView())
 	h.vSnapshot(w)
 }
@@ -830,6 +839,18 @@ func (h *vHarness) vRunHistory(w *bufio.Writer, rng *rand.Rand, wd *vWorld, nEve
 				case x == 2 && c.state == api.ContainerState_CONTAINER_CREATED:
 					c.state = api.ContainerState_CONTAINER_RUNNING
 					h.simple(w, "down-start "+c.id, noop)
+				}
+			}
+			for _, k := range vPodKeys(wd) { // pods without containers removed while the plugin was down
+				has := false
+				for _, c := range wd.ctrs {
+					if c.pod.id == k {
+						has = true
+					}
+				}
+				if !has && rng.Intn(2) == 0 {
+					delete(wd.pods, k)
+					h.simple(w, "down-removepod "+k, noop)
 				}
 			}
 			if rng.Intn(3) == 0 { // a container created while the plugin was down
